@@ -445,8 +445,9 @@ def rule_liftstore(ctx):
                 ikey = "%s@lifted_statements:%d" % (k, n)
                 if bad:
                     res.inst(ikey, s["sp"]["file"], s["sp"]["line"], "violation")
-                    res.violate("%s@lifted_statements-read" % k, "%s reads the collection of lifted definitions back (%s): a lifted body that is looked up and copied to a use site "
-                                "is no longer shared, so the size of the output multiplies with every use" %
+                    res.violate("%s@lifted_statements-read" % k, "%s reads the collection of lifted definitions back (%s): the translation of a statement then depends on "
+                                "what happens to have been lifted before it (a label numbered by the length of the collection is handed out twice when "
+                                "lifts nest), and a lifted body that is looked up and copied to a use site is no longer shared" %
                                 (k.split("::")[-1], ", ".join(sorted({t_.get("callee_name") or "?" for t_ in bad}))), s["sp"]["file"], s["sp"]["line"])
                 else:
                     res.inst(ikey, s["sp"]["file"], s["sp"]["line"], "ok", "only added to (%s)" % ", ".join(sorted({t_.get("callee_name") or "?" for t_ in ends})) if ends else "handed on")
